@@ -9,6 +9,7 @@ import PvModel.Proofs.Stream
 import PvModel.Model.Goals
 namespace Pv
 open State Term FD Goal
+variable [Mode]
 
 /-- constraint programs -/
 inductive FProg where
@@ -384,6 +385,7 @@ end Pv
 
 namespace Pv
 open State Term FD Goal
+variable [Mode]
 
 /-- PROGRAMS ON THE ENGINE: for every constraint program (atoms of the fragment under conjunction, conde
     and fresh) the interleaving search terminates, and the list `ys` of states it delivers satisfies:
@@ -413,6 +415,6 @@ theorem fd_program {ord : Order} (ho : OrderOK ord) (dfs : Call → State → St
       exact ⟨s, (hmem s).2 this, (fd_exact_ok ho nv path hokp s hpost γ).2 hγ⟩
     | fail => exact absurd ⟨γ, hγ⟩ (fd_exact_fail ho nv path hokp hpost)
     | fuel => exact absurd hpost hnf
-    | panic s => exact absurd hpost (fd_no_panic ho nv path hokp s)
+    | panic s => exact absurd ⟨γ, hγ⟩ (fd_panic_refuted ho nv path hokp s hpost).2.2
 
 end Pv
